@@ -15,7 +15,7 @@ use std::rc::Rc;
 pub static ENGINE: Engine = Engine {
     prop: "C13",
     level: "model_checking",
-    rule: "explicit-state exploration of the hidden state of BDDEnv<usize> for k=2 variables (ids 1,5): state = set of interned structures = child-closed subset of the 14 possible internal nodes (ALL such subsets are enumerated; each is built in a fresh real environment by a history of public mk_choice calls from the initial table, and the build is checked to yield exactly that table); transitions = every public operation (var, mk_const, not, 8 binary, ite, exists/all/exists_impl x variable lists <= 2, aln/amn/exn x operand lists <= 2 x n in -1..3, count_* x lists <= 1, model, infer, retain x 3 filters, clean, find, simplify, fp x 3 transformers, mk_choice with ordered arguments) on every tuple of currently interned nodes. After every transition: result == the same call in a minimal fresh environment (and == canon of the expected function where defined); every previously held handle unchanged; every table key equals its value, every child pointer of every table node and the result are Rc::ptr_eq to the table entry of the same structure; both leaves present; size() = number of keys; table only grows. Abstraction check: for every state-changing edge S -op1-> S1 the real post-history environment and build(S1) give identical results and identical successor tables for a set of follow-up operations. Long-lived histories: every sequence of 2 and 3 operations (not, all 8 binary connectives (3 at the third step in quick), exists, model, retain with both filters, clean on a pool of six functions plus earlier results; only the results are held, the operands are looked up in the table) on ONE environment, each result compared with a fresh environment, all earlier results re-inspected and the table invariants checked after every step. Lean environments: for EVERY function of four variables a fresh environment in which only the function (built by an ite cascade) is held, then seven operations each executed twice: same node both times, canonical, every reachable sub-diagram is the table's entry. Definitions: every sequence <= 3 of {eval, define f, define g} on one ParsedFormula for six texts with references; each evaluation must equal that of a fresh formula that got the same definitions first. Big table: one environment grown to ~66 000 nodes (1 200 variables, all 65 536 functions of four variables) with sharing and recomputation checks at checkpoints. Formula level: every sequence <= 3 of 12 formulas through ParsedFormula::new_with_env on one shared environment, once with an explicit ordering and once with each parse's own default ordering, vs fresh environments (variable lists by name and id, diagram) with re-inspection of all earlier results. distinct = distinct (state, operation, operands)",
+    rule: "explicit-state exploration of the hidden state of BDDEnv<usize> for k=2 variables (ids 1,5): state = set of interned structures = child-closed subset of the 14 possible internal nodes (ALL such subsets are enumerated; each is built in a fresh real environment by a history of public mk_choice calls from the initial table, and the build is checked to yield exactly that table); transitions = every public operation (var, mk_const, not, 8 binary, ite, exists/all/exists_impl x variable lists <= 2, aln/amn/exn x operand lists <= 2 x n in -1..3, count_* x lists <= 1, model, infer, retain x 3 filters, clean, find, simplify, fp x 3 transformers, mk_choice with ordered arguments) on every tuple of currently interned nodes. After every transition: result == the same call in a minimal fresh environment (and == canon of the expected function where defined); every previously held handle unchanged; every table key equals its value, every child pointer of every table node and the result are Rc::ptr_eq to the table entry of the same structure; both leaves present; size() = number of keys; table only grows. Abstraction check: for every state-changing edge S -op1-> S1 the real post-history environment and build(S1) give identical results and identical successor tables for a set of follow-up operations. Long-lived histories: every sequence of 2 and 3 operations (not, all 8 binary connectives (3 at the third step in quick), exists, model, retain with both filters, clean on a pool of six functions plus earlier results; only the results are held, the operands are looked up in the table) on ONE environment, each result compared with a fresh environment, all earlier results re-inspected and the table invariants checked after every step. Lean environments: for EVERY function of four variables a fresh environment in which only the function (built by an ite cascade) is held, then seven operations each executed twice: same node both times, canonical, every reachable sub-diagram is the table's entry. Definitions: every sequence <= 4 of {eval, define f, define g} on one ParsedFormula for eight texts with references; each evaluation must equal that of a fresh formula that got the same definitions first. Big table: one environment grown to ~66 000 nodes (1 200 variables, all 65 536 functions of four variables) with sharing and recomputation checks at checkpoints. Formula level: every sequence <= 3 of 12 formulas through ParsedFormula::new_with_env on one shared environment, once with an explicit ordering and once with each parse's own default ordering, vs fresh environments (variable lists by name and id, diagram) with re-inspection of all earlier results. distinct = distinct (state, operation, operands)",
     assumptions: &["state abstraction = table contents (validated by the abstraction check: equal tables have equal futures)", "k=2 for the complete exploration; larger variable sets only through the formula-level sequences"],
     max_shards: 64,
     run,
@@ -958,14 +958,14 @@ fn big_table_history(ctx: &mut Ctx) {
 // ---------------------------------------------------------------------------------------
 // definitions: `{name}` references resolved through ParsedFormula::define
 
-/// Every sequence of <= 3 steps out of {eval, define f, define g (five contents each)} on ONE
-/// ParsedFormula, for six texts with references in different positions. After every step
+/// Every sequence of <= 4 steps out of {eval, define f, define g (five contents each)} on ONE
+/// ParsedFormula, for eight texts with references in different positions. After every step
 /// the result of `eval()` must be structurally the result of evaluating a FRESH ParsedFormula of
 /// the same text on which the current definitions were made before its first evaluation: what
 /// was evaluated earlier must not matter.
 fn definition_histories(ctx: &mut Ctx) {
     use rsbdd::parser::{ReferenceContents, SymbolicBDD};
-    const TEXTS: [&str; 6] = ["{f}", "a & ({f} | b)", "-{f} => {g}", "exists a # a & {f}", "[{f}, a, {g}] >= 2", "lfp X # {f} | (X & b)"];
+    const TEXTS: [&str; 8] = ["{f}", "a & ({f} | b)", "-{f} => {g}", "exists a # a & {f}", "[{f}, a, {g}] >= 2", "lfp X # {f} | (X & b)", "{f} & (a | b)", "{f} ^ {g} ^ b"];
     // step 0 = eval; 1..=5 define f; 6..=10 define g
     let content = |p: &ParsedFormula, k: usize| -> ReferenceContents {
         let v = |n: &str| p.vars.iter().find(|s| s.name.as_str() == n).cloned();
@@ -993,7 +993,7 @@ fn definition_histories(ctx: &mut Ctx) {
     let ordering: Vec<NamedSymbol> = ["a", "b", "X"].iter().enumerate().map(|(i, n)| crate::conv::sym(n, i * 2 + 1)).collect();
     let mut idx = 1u64 << 41;
     for (ti, text) in TEXTS.iter().enumerate() {
-        for len in 1..=3usize {
+        for len in 1..=4usize {
             let mut seqs = vec![];
             crate::enumerate::for_each_seq(11, len, &mut |_, d| seqs.push(d.to_vec()));
             for d in seqs {
